@@ -313,7 +313,15 @@ func c04RawOracle(c c04RawCase, o c04RawObs) (kind, detail, known string) {
 			return "post-ran-more-than-once", fmt.Sprintf("%s: the method body ran %d times", d, o.exec), ""
 		}
 		if len(o.back) != 0 {
-			return "post-answered", fmt.Sprintf("%s: the server sent %d frame(s) back (first: type %d)", d, len(o.back), o.back[0].Header.Type), "post_answered"
+			// the known defect: a Post that cannot be served (no such service/object/action, or
+			// arguments that cannot be decoded) gets an Error frame.  Anything else sent back for a
+			// Post is not that defect.
+			servable := c.countKey != "none" && !strings.Contains(c.desc, "undecodable")
+			known := ""
+			if !servable && len(o.back) == 1 && o.back[0].Header.Type == net.Error {
+				known = "post_answered"
+			}
+			return "post-answered", fmt.Sprintf("%s: the server sent %d frame(s) back (first: type %d)", d, len(o.back), o.back[0].Header.Type), known
 		}
 	default:
 		if o.exec != 0 && isMethod {
